@@ -7,7 +7,7 @@ func init() {
 		budget := 280 * time.Second
 		d := 0
 		if tier == "thorough" {
-			budget, d = 40*time.Minute, 2
+			budget, d = 20*time.Minute, 2
 		}
 		us := []Unit{
 			Search{Sc: Lifecycle{Variant: "base"}, Depth: 4 + d},
